@@ -37,4 +37,19 @@ func IsSmartContractAddress(rcvAddress []byte) (r bool)
 func IsSmartContractOnMetachain(identifier []byte, rcvAddress []byte) (r bool)
   pure
   ensures is-sc-with-meta-id: r ==> len(rcvAddress) > 25 && IsMetachainIdentifier(identifier) && IsSmartContractAddress(rcvAddress)
+
+func SafeMul(a uint64, b uint64) (r *big.Int)
+  ensures fresh(r)
+  ensures product: big(r) == a * b
+  assigns nothing
+
+func SafeSubUint64(a uint64, b uint64) (r uint64, err error)
+  ensures no-underflow: a >= b ==> r == a - b && err == nil
+  ensures underflow-is-error: a < b ==> r == 0 && err != nil
+  assigns nothing
+
+func SafeAddUint64(a uint64, b uint64) (r uint64, err error)
+  ensures no-overflow: a + b < 18446744073709551616 ==> r == a + b && err == nil
+  ensures overflow-is-error: a + b >= 18446744073709551616 ==> r == 0 && err != nil
+  assigns nothing
 @*/
